@@ -18,6 +18,7 @@ import (
 	"os"
 	"path/filepath"
 	"runtime"
+	"runtime/debug"
 	"sort"
 	"strings"
 	"sync"
@@ -649,12 +650,13 @@ func maxInt(a, b int) int {
 }
 
 func main() {
+	debug.SetGCPercent(400) // allocation-heavy code under test (JSON hashing); fewer GC cycles
 	r := vf.NewRun("C28", "exploration",
 		"every (N,C) with 4<=N<=400, 1<=C<=(N-1)/3: smallest signer set accepted by the real getCommitConsensus (7 probe shapes), BlockPool.commitDone / its endorse-signature fallback / endorseDone on a real pool (sampled N above a bound, see explored_bound); every N<=16 (quick) / <=40 (thorough): smallest number of distinct valid bookkeeper signatures accepted by validation.VerifyBlock, by the ledger's non-VBFT verifyHeader (AddHeaders on a real ledger) and the m of AddressFromBookkeepers; a case is one (function, shape, N, C) measurement")
 	rng := vf.NewRNG(vf.Seed())
 	scratch := vf.Scratch("c28")
 
-	linearN := vf.N(64, 160) // k enumerated completely up to here, bisection + window beyond
+	linearN := vf.N(64, 128) // k enumerated completely up to here, bisection + window beyond
 	poolAllN := vf.N(40, 100)
 	poolSample := map[int]bool{}
 	for _, n := range []int{64, 100, 127, 128, 129, 200, 255, 256, 257, 300, 399, 400} {
@@ -765,7 +767,7 @@ func main() {
 					r.Count("never_accepted_getCommitConsensus:" + sh.name)
 				}
 			}
-			if n <= poolAllN || (poolSample[n] && (vf.Thorough() || quickFull(n, c))) {
+			if n <= poolAllN || (poolSample[n] && (quickFull(n, c) || (vf.Thorough() && c%8 == 0))) {
 				for _, m := range poolProbes(r, n, c) {
 					ms = append(ms, m)
 					r.Eval(fmt.Sprintf("pool/%s/%s/N=%d/C=%d/t=%d", m.Fn, m.Shape, n, c, m.T))
@@ -844,7 +846,7 @@ func main() {
 	r.Extra("measured_signature_thresholds_by_N", sigRows)
 	r.Extra("explored_bound", map[string]interface{}{
 		"getCommitConsensus":   fmt.Sprintf("all (N,C) with 4<=N<=%d, 1<=C<=(N-1)/3 (%d configurations); scan parameter k enumerated completely for N<=%d, located by bisection and checked on a +-3 window and 5 spot values for larger N; %s", maxN, len(pairs), linearN, map[bool]string{true: "all 7 shapes for every C", false: "all 7 shapes for C in {1, mid, max} and for N<=64, the two committer shapes for every other C"}[vf.Thorough()]),
-		"BlockPool":            fmt.Sprintf("every (N,C) with N<=%d, and N in {64,100,127,128,129,200,255,256,257,300,399,400}; messages fed one at a time, commitDone/endorseDone read after each", poolAllN),
+		"BlockPool":            fmt.Sprintf("every (N,C) with N<=%d, and N in {64,100,127,128,129,200,255,256,257,300,399,400} with C in {1, mid, max}%s; messages fed one at a time, commitDone/endorseDone read after each", poolAllN, map[bool]string{true: " and every 8th C", false: ""}[vf.Thorough()]),
 		"signature_thresholds": fmt.Sprintf("N=1..%d; full acceptance (real ledger) for N<=16 = MULTI_SIG_MAX_PUBKEY_SIZE, VerifyBlock signature stage only for larger N (no bookkeeper address exists there)", sigN),
 		"not_covered":          "N > 400 (N > 40 for signature thresholds); the VBFT branch of the ledger's verifyHeader (its minimum m = n - 6n/7 is measured by C32)",
 	})
